@@ -465,7 +465,7 @@ func c31Gen(r *kit.Rand, idx int) *c31Case {
 	default:
 		hostile := class == 3
 		c.Class = []string{"", "lossy", "dups", "hostile"}[class]
-		wantDelay := r.Chance(0.25)
+		wantDelay := r.Chance(0.15)
 		st := c31GenStream(r, nFrames, hostile, c.Codec, wantDelay && r.Chance(0.3))
 		c.WrapSeq, c.WrapTS, c.MaxStep = st.wrapSeq, st.wrapTS, st.maxStep
 		c.MaxLate = kit.Pick(r, c31MaxLates)
@@ -1080,7 +1080,7 @@ func TestVerifC31(t *testing.T) {
 	run.Assume("this SampleBuilder version has no PopWithTimestamp; Sample.PacketTimestamp is compared with the run's timestamp and only counted (not part of the statement)")
 
 	scripted := c31Scripted()
-	n := len(scripted) + kit.N(3000, 40000)
+	n := len(scripted) + kit.N(2400, 40000)
 	var mu sync.Mutex
 	classSeen := map[string]int{}
 
